@@ -21,8 +21,8 @@ Module FS := Tickit.RBFlushSpec.
 Module TS := Tickit.RBTermSim.
 Module SH := Tickit.RBFlushShown.
 
-(* ---- from the render buffer's pens (C19's attribute maps) to term.c's.  Covered here: the four attributes
-   fg / bg (palette index, no RGB secondary), bold, underline style; [rbpen_okb] demands the other six absent *)
+(* ---- from the render buffer's pens (C19's attribute maps: ten attributes, colours with an optional RGB8
+   secondary) to term.c's *)
 Definition cv (v : Tickit.PenSpec.value) : aval :=
   match v with
   | Tickit.PenSpec.VBool b => VBool b
@@ -30,29 +30,17 @@ Definition cv (v : Tickit.PenSpec.value) : aval :=
   | Tickit.PenSpec.VCol i c =>
       VCol i (option_map (fun c => mkRgb (Tickit.PenDefs.cr c) (Tickit.PenDefs.cg c) (Tickit.PenDefs.cb c)) c)
   end.
-Definition pen_of_rb (p : RD.pen) : pen :=
-  fun a => match a with
-           | AFg => option_map cv (RD.p_fg p)
-           | ABg => option_map cv (RD.p_bg p)
-           | ABold => option_map cv (RD.p_bold p)
-           | AUnder => option_map cv (RD.p_under p)
-           | _ => None
-           end.
-Definition col_okb (o : option Tickit.PenSpec.value) : bool :=
-  match o with
-  | None => true
-  | Some (Tickit.PenSpec.VCol i None) => (-1 <=? i) && (i <=? 255)
-  | Some _ => false
+Definition pattr_of (a : attr) : Tickit.PenDefs.attr :=
+  match a with
+  | AFg => Tickit.PenDefs.FG | ABg => Tickit.PenDefs.BG | ABold => Tickit.PenDefs.BOLD
+  | AUnder => Tickit.PenDefs.UNDER | AItalic => Tickit.PenDefs.ITALIC | AReverse => Tickit.PenDefs.REVERSE
+  | AStrike => Tickit.PenDefs.STRIKE | AAltfont => Tickit.PenDefs.ALTFONT | ABlink => Tickit.PenDefs.BLINK
+  | ASizepos => Tickit.PenDefs.SIZEPOS
   end.
-Definition bool_okb (o : option Tickit.PenSpec.value) : bool :=
-  match o with None => true | Some (Tickit.PenSpec.VBool _) => true | Some _ => false end.
-Definition und_okb (o : option Tickit.PenSpec.value) : bool :=
-  match o with None => true | Some (Tickit.PenSpec.VInt u) => (0 <=? u) && (u <=? 3) | Some _ => false end.
-Definition absent (o : option Tickit.PenSpec.value) : bool := match o with None => true | Some _ => false end.
-Definition rbpen_okb (p : RD.pen) : bool :=
-  col_okb (RD.p_fg p) && col_okb (RD.p_bg p) && bool_okb (RD.p_bold p) && und_okb (RD.p_under p) &&
-  absent (RD.p_italic p) && absent (RD.p_reverse p) && absent (RD.p_strike p) && absent (RD.p_altfont p) &&
-  absent (RD.p_blink p) && absent (RD.p_sizepos p).
+Definition pen_of_rb (p : RD.pen) : pen := fun a => option_map cv (RD.pget p (pattr_of a)).
+(* the values the SGR model covers: colour index -1..255 (RGB components 0..255), underline style 0..3,
+   alternate font -1..9, sizepos 0 / 2 / 3 (SIZEPOS_SMALL = 1 has no SGR), booleans *)
+Definition rbpen_okb (p : RD.pen) : bool := pen_in_rangeb (pen_of_rb p).
 
 (* the operations, as calls of the public API *)
 Definition api_of_termop (o : FD.termop) : api :=
@@ -71,23 +59,24 @@ Definition termop_okb (o : FD.termop) : bool :=
   end.
 
 (* ---- the rendition a render-buffer pen stands for on the terminal *)
-Definition rcol (i : Z) : colour := if i <? 0 then CDefault else CIdx i.
-Definition rund (colon : bool) (n : Z) : Z := if colon then n else if (n =? 0) || (n =? 1) || (n =? 2) then n else 1.
-Definition rcolv (v : Tickit.PenSpec.value) : colour :=
-  match v with Tickit.PenSpec.VCol i _ => rcol i | _ => CDefault end.
-Definition rboolv (v : Tickit.PenSpec.value) : bool := match v with Tickit.PenSpec.VBool b => b | _ => false end.
-Definition rintv (v : Tickit.PenSpec.value) : Z := match v with Tickit.PenSpec.VInt z => z | _ => 0 end.
-(* by the defaulted reads, so that equivalent pens (tickit_pen_equiv) have the same rendition *)
-Definition rend (colon : bool) (p : RD.pen) : attrs :=
-  mkAttrs (rcolv (RD.preads p Tickit.PenDefs.FG)) (rcolv (RD.preads p Tickit.PenDefs.BG))
-          (rboolv (RD.preads p Tickit.PenDefs.BOLD)) false
-          (rund colon (rintv (RD.preads p Tickit.PenDefs.UNDER))) false false false 0 false 0.
+Definition xc (x : vval) : colour := match x with XCol c => c | _ => CDefault end.
+Definition xb (x : vval) : bool := match x with XBool b => b | _ => false end.
+Definition xi (x : vval) : Z := match x with XInt n => n | _ => 0 end.
+Definition attrs_of (f : attr -> vval) : attrs :=
+  mkAttrs (xc (f AFg)) (xc (f ABg)) (xb (f ABold)) false (xi (f AUnder)) (xb (f AItalic)) (xb (f AReverse))
+          (xb (f AStrike)) (xi (f AAltfont)) (xb (f ABlink)) (xi (f ASizepos)).
+(* by the defaulted reads, so that equivalent pens (tickit_pen_equiv) have the same rendition; [enc] is
+   C10's encoding of an attribute value (TermPenSpec): colours by index or -- with an RGB secondary and the
+   RGB capability -- direct, underline styles with or without colon sub-parameters, fonts, sizepos *)
+Definition rval (p : RD.pen) (a : attr) : aval := cv (RD.preads p (pattr_of a)).
+Definition rend (colon rgb8 : bool) (p : RD.pen) : attrs := attrs_of (fun a => enc colon rgb8 a (rval p a)).
 
 (* a VT cell against a cell of the abstract terminal: the glyph, and the pen's rendition -- for a blank
    it is enough that the visible background is the pen's (ECH leaves only the background) *)
-Definition wrel (colon : bool) (c : cell) (tc : FD.tcell) : Prop :=
+Definition wrel (colon rgb8 : bool) (c : cell) (tc : FD.tcell) : Prop :=
   exists g, FD.t_text tc = [g] /\ c_glyph c = g /\
-    (c_attrs c = rend colon (FD.t_pen tc) \/ (g = 32 /\ visbg (c_attrs c) = visbg (rend colon (FD.t_pen tc)))).
+    (c_attrs c = rend colon rgb8 (FD.t_pen tc) \/
+     (g = 32 /\ visbg (c_attrs c) = visbg (rend colon rgb8 (FD.t_pen tc)))).
 
 Definition written (w : TS.writes) (pos : FS.tpos) : bool := existsb (fun pc => FS.tpos_eqb (fst pc) pos) w.
 
@@ -131,11 +120,10 @@ Proof.
 Qed.
 
 (* ---- the simulation invariant: the driver's terminal object [t] (cached pen = converted logical pen
-   [l], no reverse video), the VT screen [v] (no margins, rendition = the abstract terminal's pen [pn]) *)
+   [l]), the VT screen [v] (no margins, rendition = the abstract terminal's pen [pn]) *)
 Definition SimInv (colon rgb8 : bool) (v : vt) (t : term) (l : pen) (pn : RD.pen) : Prop :=
   vt_ok v /\ cap_colon (x_caps (t_drv t)) = colon /\ cap_rgb8 (x_caps (t_drv t)) = rgb8 /\
-  PenInv 256 colon rgb8 l (t_pen t) v /\ get_bool_attr (t_pen t) AReverse = false /\
-  v_sgr v = rend colon pn.
+  PenInv 256 colon rgb8 l (t_pen t) v /\ v_sgr v = rend colon rgb8 pn.
 
 (* the cursor paint tracks against the VT's: after a print or an erase up to the right edge the VT's
    cursor stays on the last column (pending wrap, or clamped) where the abstract one stands beyond it *)
@@ -146,9 +134,9 @@ Definition cur_rel (v : vt) (cur : option FS.tpos) : Prop :=
   end.
 
 (* the cells: written ones relate to what paint wrote last, the others are untouched *)
-Definition cells_rel (colon : bool) (w : TS.writes) (v v' : vt) : Prop :=
+Definition cells_rel (colon rgb8 : bool) (w : TS.writes) (v v' : vt) : Prop :=
   forall y x, 0 <= y < v_lines v -> 0 <= x < v_cols v ->
-    if written w (y, x) then wrel colon (v_grid v' y x) (TS.look w (y, x) FS.dtc)
+    if written w (y, x) then wrel colon rgb8 (v_grid v' y x) (TS.look w (y, x) FS.dtc)
     else v_grid v' y x = v_grid v y x.
 
 Lemma PenInv_sgr : forall colors colon rgb8 l tp v v', v_sgr v' = v_sgr v ->
@@ -168,50 +156,77 @@ Proof.
     inversion H8; inversion H9; inversion H10; subst. reflexivity.
 Qed.
 
-Lemma rbpen_ok_parts : forall p, rbpen_okb p = true ->
-  col_okb (RD.p_fg p) = true /\ col_okb (RD.p_bg p) = true /\ bool_okb (RD.p_bold p) = true /\
-  und_okb (RD.p_under p) = true.
-Proof. intros p H. unfold rbpen_okb in H. repeat (apply andb_prop in H as [H ?]). auto. Qed.
-
 Lemma rbpen_ok_in_range : forall p, rbpen_okb p = true -> pen_in_range (pen_of_rb p).
 Proof.
-  intros p H a x E. destruct (rbpen_ok_parts p H) as (H1 & H2 & H3 & H4). unfold pen_of_rb in E.
-  destruct a; try discriminate E; unfold aval_in_range; cbn [attr_type].
-  - destruct (RD.p_fg p) as [[b|z|i [c|]]|]; try discriminate; inversion E; subst. cbn in H1. cbn. lia.
-  - destruct (RD.p_bg p) as [[b|z|i [c|]]|]; try discriminate; inversion E; subst. cbn in H2. cbn. lia.
-  - destruct (RD.p_bold p) as [[b|z|i c]|]; try discriminate; inversion E; subst. exact I.
-  - destruct (RD.p_under p) as [[b|z|i c]|]; try discriminate; inversion E; subst. cbn in H4. lia.
+  intros p H a v Ha. unfold rbpen_okb, pen_in_rangeb in H. rewrite forallb_forall in H.
+  assert (Hin : In a all_attrs) by (destruct a; cbn; tauto).
+  specialize (H a Hin). rewrite Ha in H.
+  unfold aval_in_rangeb in H. unfold aval_in_range.
+  destruct a; cbn [attr_type] in *; destruct v as [b|n|i [c|]]; try discriminate H; try exact I; lia.
+Qed.
+
+Lemma conv_in_range : forall a v, aval_in_range a v -> conv_val 256 v = v.
+Proof.
+  intros a v H. destruct v as [b|n|i sec]; try reflexivity. cbn [conv_val].
+  unfold aval_in_range in H. destruct (attr_type a); try contradiction.
+  destruct (256 <=? i) eqn:E; [lia|reflexivity].
+Qed.
+
+Lemma enc_attr : forall colon rgb8 g a, aval_in_range a (g a) ->
+  vt_attr (attrs_of (fun a => enc colon rgb8 a (g a))) a = enc colon rgb8 a (g a).
+Proof.
+  intros colon rgb8 g a H. unfold aval_in_range in H.
+  destruct a; cbn [attr_type] in H;
+    cbn [vt_attr attrs_of a_fg a_bg a_bold a_under a_italic a_reverse a_strike a_font a_blink a_sizepos];
+    match goal with |- context [g ?A] => destruct (g A) as [b|n|i [c|]] end; try contradiction;
+    cbn [enc vt_attr default_attrs a_fg a_bg
+      a_bold a_under a_italic a_reverse a_strike a_font a_blink a_sizepos xc xb xi];
+    repeat match goal with |- context [if ?c then _ else _] => destruct c end; reflexivity.
+Qed.
+
+Lemma default_cv : forall a, default_val a = cv (Tickit.PenSpec.default_of (pattr_of a)).
+Proof. intros a. destruct a; reflexivity. Qed.
+
+Lemma default_in_range : forall a, aval_in_range a (default_val a).
+Proof. intros a. destruct a; cbn; unfold COLOUR_DEFAULT; try exact I; try lia; (split; [lia|exact I]). Qed.
+
+Lemma rval_in_range : forall p a, rbpen_okb p = true -> aval_in_range a (rval p a).
+Proof.
+  intros p a Hok. pose proof (rbpen_ok_in_range p Hok a) as Hr. unfold pen_of_rb in Hr.
+  unfold rval, RD.preads. destruct (RD.pget p (pattr_of a)) as [x|]; cbn [option_map] in Hr.
+  - apply Hr. reflexivity.
+  - rewrite <- default_cv. apply default_in_range.
 Qed.
 
 (* after set-pen of a render-buffer pen the rendition is the pen's *)
 Lemma setpen_rend : forall colon rgb8 l tp' s (p : RD.pen), rbpen_okb p = true ->
   sgr_matches colon rgb8 tp' s ->
   (forall a, tp' a = cache_of 256 (logical_set l (pen_of_rb p)) a) ->
-  s = rend colon p.
+  s = rend colon rgb8 p.
 Proof.
   intros colon rgb8 l tp' s p Hok [Hm Hf] Htp.
-  destruct (rbpen_ok_parts p Hok) as (H1 & H2 & H3 & H4).
   apply attrs_ext; [|rewrite Hf; reflexivity].
-  intros a. rewrite Hm, Htp. unfold cache_of, logical_set, pen_of_rb, rend, default_val, RD.preads.
-  destruct a; cbn [attr_type option_map conv_val vt_attr enc a_fg a_bg a_bold a_under a_italic a_reverse a_strike
-                   a_font a_blink a_sizepos COLOUR_DEFAULT RD.pget].
-  - destruct (RD.p_fg p) as [[b|z|i [c|]]|]; try discriminate; cbn in H1; cbn [option_map cv conv_val enc rcolv].
-    + destruct (256 <=? i) eqn:E; [lia|]. cbn [enc]. unfold rcol. destruct (i <? 0); reflexivity.
-    + reflexivity.
-  - destruct (RD.p_bg p) as [[b|z|i [c|]]|]; try discriminate; cbn in H2; cbn [option_map cv conv_val enc rcolv].
-    + destruct (256 <=? i) eqn:E; [lia|]. cbn [enc]. unfold rcol. destruct (i <? 0); reflexivity.
-    + reflexivity.
-  - destruct (RD.p_bold p) as [[b|z|i c]|]; try discriminate; reflexivity.
-  - destruct (RD.p_under p) as [[b|z|i c]|]; try discriminate; cbn; unfold rund; [reflexivity|destruct colon; reflexivity].
-  - reflexivity.
-  - reflexivity.
-  - reflexivity.
-  - reflexivity.
-  - reflexivity.
-  - reflexivity.
+  intros a. rewrite Hm, Htp. unfold rend. rewrite enc_attr by (apply rval_in_range; exact Hok).
+  unfold cache_of, logical_set. cbn [option_map]. f_equal.
+  pose proof (rval_in_range p a Hok) as Hr. unfold rval, RD.preads, pen_of_rb in *.
+  destruct (RD.pget p (pattr_of a)) as [x|]; cbn [option_map] in *.
+  - apply (conv_in_range a). exact Hr.
+  - rewrite default_cv. apply (conv_in_range a). exact Hr.
 Qed.
-Lemma rend_canon : forall colon p, rend colon (FD.canon_pen p) = rend colon p.
-Proof. intros colon p. reflexivity. Qed.
+Lemma rend_canon : forall colon rgb8 p, rend colon rgb8 (FD.canon_pen p) = rend colon rgb8 p.
+Proof. intros colon rgb8 p. reflexivity. Qed.
+
+(* the driver's reverse-video flag is the screen's *)
+Lemma PenInv_rv : forall colon rgb8 l tp v, PenInv 256 colon rgb8 l tp v ->
+  get_bool_attr tp AReverse = a_reverse (v_sgr v).
+Proof.
+  intros colon rgb8 l tp v (H1 & H2 & (H3 & _)). specialize (H3 AReverse). cbn [vt_attr] in H3.
+  unfold get_bool_attr. rewrite H2 in *. unfold cache_of in *.
+  destruct (l AReverse) as [x|] eqn:E; cbn [option_map] in *.
+  - specialize (H1 AReverse x E). unfold aval_in_range in H1. cbn [attr_type] in H1.
+    destruct x as [b|k|i sec]; try contradiction. cbn [conv_val enc] in *. congruence.
+  - cbn in H3. congruence.
+Qed.
 
 (* ---- the four operations *)
 Lemma vt_ok_parts : forall v, vt_ok v -> mg_full v /\ md_awm (v_md v) = true /\ 0 < v_lines v /\ 0 < v_cols v /\
@@ -228,7 +243,7 @@ Lemma sim_goto : forall colon rgb8 v t l pn lg cg, SimInv colon rgb8 v t l pn ->
     v_lines (vt_run toks v) = v_lines v /\ v_cols (vt_run toks v) = v_cols v /\
     forall y x, v_grid (vt_run toks v) y x = v_grid v y x.
 Proof.
-  intros colon rgb8 v t l pn lg cg (Hok & Hc1 & Hc2 & Hpi & Hrv & Hsgr) Hl Hc.
+  intros colon rgb8 v t l pn lg cg (Hok & Hc1 & Hc2 & Hpi & Hsgr) Hl Hc.
   exists (xt_goto_abs lg cg). split; [reflexivity|].
   rewrite goto_abs_pos by assumption.
   destruct (vt_ok_parts v Hok) as (Hm & Hawm & HL & HC & Hr0 & Hc0).
@@ -236,7 +251,7 @@ Proof.
   - unfold SimInv. split.
     + apply vt_ok_intro; vt_unfold; try assumption; lia.
     + split; [exact Hc1|]. split; [exact Hc2|]. split; [apply (PenInv_sgr _ _ _ _ _ v); [reflexivity|exact Hpi]|].
-      split; [exact Hrv|exact Hsgr].
+      exact Hsgr.
   - split; [cbn [cur_rel]; vt_unfold; split; [reflexivity|left; repeat split; lia]|].
     split; [reflexivity|]. split; [reflexivity|]. intros y x. reflexivity.
 Qed.
@@ -247,22 +262,21 @@ Lemma sim_setpen : forall colon rgb8 v t l pn (p : RD.pen), SimInv colon rgb8 v 
     v_cur (vt_run toks v) = v_cur v /\ v_lines (vt_run toks v) = v_lines v /\ v_cols (vt_run toks v) = v_cols v /\
     forall y x, v_grid (vt_run toks v) y x = v_grid v y x.
 Proof.
-  intros colon rgb8 v t l pn p (Hok & Hc1 & Hc2 & Hpi & Hrv & Hsgr) Hp.
+  intros colon rgb8 v t l pn p (Hok & Hc1 & Hc2 & Hpi & Hsgr) Hp.
   pose proof (rbpen_ok_in_range p Hp) as Hpr.
   rewrite <- Hc1, <- Hc2 in Hpi.
   destruct (api_pen_ok_step true l t v (pen_of_rb p) Hpi Hpr) as (t' & ts & Hstep & Hdrv & Hinv' & Hset & _).
   cbn iota in Hstep, Hinv'. exists t', ts, (logical_set l (pen_of_rb p)).
   split; [exact Hstep|].
   destruct Hinv' as (L1 & L2 & L3).
-  assert (Hs' : v_sgr (vt_run ts v) = rend colon (FD.canon_pen p)).
-  { rewrite rend_canon. rewrite Hc1 in L3. apply (setpen_rend colon _ l (t_pen t') _ p Hp L3 L2). }
+  assert (Hs' : v_sgr (vt_run ts v) = rend colon rgb8 (FD.canon_pen p)).
+  { rewrite rend_canon. rewrite Hc1, Hc2 in L3. apply (setpen_rend colon rgb8 l (t_pen t') _ p Hp L3 L2). }
   destruct (vt_ok_parts v Hok) as (Hm & Hawm & HL & HC & Hr0 & Hc0).
   split.
   - unfold SimInv. rewrite Hdrv. split.
     + rewrite Hset. apply vt_ok_intro; vt_unfold; assumption.
     + split; [exact Hc1|]. split; [exact Hc2|]. split; [rewrite <- Hc1, <- Hc2; exact (conj L1 (conj L2 L3))|].
-      split; [|exact Hs'].
-      unfold get_bool_attr. rewrite L2. unfold cache_of, logical_set, pen_of_rb, default_val. reflexivity.
+      exact Hs'.
   - rewrite Hset. split; [reflexivity|]. split; [reflexivity|]. split; [reflexivity|]. intros y x. reflexivity.
 Qed.
 
@@ -275,6 +289,44 @@ Proof.
   - split; [lia|]. right. split; lia.
 Qed.
 
+(* a non-empty run of printable characters that fits on the line, on the VT *)
+Lemma print_vt : forall colon rgb8 v t l pn (u : list Z) lc c, SimInv colon rgb8 v t l pn ->
+  cur_rel v (Some (lc, c)) -> forallb printable u = true -> 0 <= c -> (0 < length u)%nat ->
+  c + Z.of_nat (length u) <= v_cols v ->
+  SimInv colon rgb8 (vt_run (chars u) v) t l pn /\
+  cur_rel (vt_run (chars u) v) (Some (lc, c + Z.of_nat (length u))) /\
+  v_lines (vt_run (chars u) v) = v_lines v /\ v_cols (vt_run (chars u) v) = v_cols v /\
+  forall y x, v_grid (vt_run (chars u) v) y x =
+              if (y =? lc) && (c <=? x) && (x <? c + Z.of_nat (length u))
+              then mkCell (nth (Z.to_nat (x - c)) u 0) (v_sgr v) else v_grid v y x.
+Proof.
+  intros colon rgb8 v t l pn u lc c Hsim Hcur Hpr Hc0 Hne Hfit.
+  destruct u as [|b u']; [cbn in Hne; lia|].
+  set (u := b :: u') in *.
+  assert (Hlen : 0 < Z.of_nat (length u)) by lia.
+  destruct Hsim as (Hok & Hc1 & Hc2 & Hpi & Hsgr).
+  destruct (vt_ok_parts v Hok) as (Hm & Hawm & HL & HC & Hr0 & Hcc0).
+  assert (Hmk : forall v2, v_sgr v2 = v_sgr v -> vt_ok v2 -> SimInv colon rgb8 v2 t l pn).
+  { intros v2 E5 Hok2. unfold SimInv. split; [exact Hok2|]. split; [exact Hc1|]. split; [exact Hc2|].
+    split; [apply (PenInv_sgr _ _ _ _ _ v); [exact E5|exact Hpi]|]. rewrite E5; exact Hsgr. }
+  clear Hpi Hsgr Hc1 Hc2.
+  cbn [cur_rel] in Hcur. destruct Hcur as (Hrow & [(Hlt & Hcol & Hpend) | (Hge & _)]); [|lia].
+  destruct (chars_run u v Hm Hawm Hpr (or_introl Hpend) ltac:(lia) ltac:(lia)) as (Gf & Grow & Gcur & Gg).
+  set (v' := vt_run (chars u) v) in *. clearbody v'.
+  destruct Gf as (F1 & F2 & F3 & F4 & F5).
+  unfold u in Gcur. fold u in Gcur. clearbody u.
+  set (n := Z.of_nat (length u)) in *.
+  assert (Hgg := Gg). assert (Hgg2 := Gg). clear Gg. clearbody n.
+  assert (Hc' := cur_after_print (v_cols v) c n (col v') (pend v') Hc0 Hlen Hfit ltac:(rewrite <- Hcol; exact Gcur)).
+  destruct Hc' as (Hcin & Hcrel).
+  split.
+  + apply Hmk; [exact F4|]. clear Hmk Hgg.
+    apply vt_ok_intro; rewrite ?F1, ?F2, ?F3, ?F5, ?Grow; try assumption; try lia.
+  + clear Hmk Hgg. split; [cbn [cur_rel]; rewrite F2; split; [lia|exact Hcrel]|].
+    split; [exact F1|]. split; [exact F2|].
+    intros y x. rewrite Hgg2, Hrow, Hcol. reflexivity.
+Qed.
+
 Lemma sim_print : forall colon rgb8 v t l pn (u : list Z) lc c, SimInv colon rgb8 v t l pn ->
   cur_rel v (Some (lc, c)) -> forallb printable u = true -> 0 <= c -> c + Z.of_nat (length u) <= v_cols v ->
   exists toks, api_step t (APrintn u (Z.of_nat (length u))) = Some (t, toks, None) /\
@@ -285,39 +337,18 @@ Lemma sim_print : forall colon rgb8 v t l pn (u : list Z) lc c, SimInv colon rgb
                 then mkCell (nth (Z.to_nat (x - c)) u 0) (v_sgr v) else v_grid v y x.
 Proof.
   intros colon rgb8 v t l pn u lc c Hsim Hcur Hpr Hc0 Hfit.
-  destruct u as [|b u'].
+  destruct (length u) as [|k] eqn:Elen.
   - (* nothing: the repaired printn returns at once *)
-    exists []. split; [reflexivity|]. rewrite vt_run_nil. cbn [length Z.of_nat]. rewrite Z.add_0_r.
+    apply length_zero_iff_nil in Elen. subst u.
+    exists []. split; [reflexivity|]. rewrite vt_run_nil. cbn [Z.of_nat]. rewrite Z.add_0_r.
     split; [exact Hsim|]. split; [exact Hcur|]. split; [reflexivity|]. split; [reflexivity|].
     intros y x. destruct ((y =? lc) && (c <=? x) && (x <? c)) eqn:E; [lia|reflexivity].
-  - set (u := b :: u') in *.
-    assert (Hlen : 0 < Z.of_nat (length u)) by (unfold u; cbn [length]; lia).
-    destruct Hsim as (Hok & Hc1 & Hc2 & Hpi & Hrv & Hsgr).
-    destruct (vt_ok_parts v Hok) as (Hm & Hawm & HL & HC & Hr0 & Hcc0).
-    assert (Hmk : forall v2, v_sgr v2 = v_sgr v -> vt_ok v2 -> SimInv colon rgb8 v2 t l pn).
-    { intros v2 E5 Hok2. unfold SimInv. split; [exact Hok2|]. split; [exact Hc1|]. split; [exact Hc2|].
-      split; [apply (PenInv_sgr _ _ _ _ _ v); [exact E5|exact Hpi]|]. split; [exact Hrv|rewrite E5; exact Hsgr]. }
-    clear Hpi Hrv Hsgr Hc1 Hc2.
-    cbn [cur_rel] in Hcur. destruct Hcur as (Hrow & [(Hlt & Hcol & Hpend) | (Hge & _)]); [|lia].
-    exists (chars u). split.
+  - rewrite <- Elen in *. exists (chars u). split.
     { cbn [api_step]. destruct (Z.of_nat (length u) =? 0) eqn:E0; [lia|].
       unfold drv_print, write_str_bytes. rewrite E0.
       destruct ((0 <? Z.of_nat (length u)) && (Z.of_nat (length u) <=? Z.of_nat (length u))) eqn:E1; [|lia].
       rewrite Nat2Z.id, firstn_all. reflexivity. }
-    destruct (chars_run u v Hm Hawm Hpr (or_introl Hpend) ltac:(lia) ltac:(lia)) as (Gf & Grow & Gcur & Gg).
-    set (v' := vt_run (chars u) v) in *. clearbody v'.
-    destruct Gf as (F1 & F2 & F3 & F4 & F5).
-    unfold u in Gcur. fold u in Gcur. clearbody u.
-    set (n := Z.of_nat (length u)) in *.
-    assert (Hgg := Gg). assert (Hgg2 := Gg). clear Gg. clearbody n.
-    assert (Hc' := cur_after_print (v_cols v) c n (col v') (pend v') Hc0 Hlen Hfit ltac:(rewrite <- Hcol; exact Gcur)).
-    destruct Hc' as (Hcin & Hcrel).
-    split.
-    + apply Hmk; [exact F4|]. clear Hmk Hgg.
-      apply vt_ok_intro; rewrite ?F1, ?F2, ?F3, ?F5, ?Grow; try assumption; try lia.
-    + clear Hmk Hgg. split; [cbn [cur_rel]; rewrite F2; split; [lia|exact Hcrel]|].
-      split; [exact F1|]. split; [exact F2|].
-      intros y x. rewrite Hgg2, Hrow, Hcol. reflexivity.
+    apply (print_vt colon rgb8 v t l pn u lc c Hsim Hcur Hpr Hc0); lia.
 Qed.
 
 Lemma run_ech_n : forall v n, 1 <= n -> vt_run (if n =? 1 then [csi_0 88] else [csi_n n 88]) v = vt_ech v n.
@@ -327,6 +358,12 @@ Proof.
   - rewrite run_ech. destruct (n =? 0) eqn:B; [lia|reflexivity].
 Qed.
 
+Lemma forallb_printable_spaces : forall k, forallb printable (repeat 32 k) = true.
+Proof. induction k as [|k IH]; [reflexivity|]. cbn [repeat forallb]. rewrite IH. reflexivity. Qed.
+
+(* erasech: ECH (+ CUF) when the rendition is not in reverse video -- blanks that keep only the background --
+   and otherwise spaces in the full rendition.  The flush asks for moveend = YES or MAYBE only, never NO,
+   so the move back of the spaces strategy -- and with it the recorded right-edge class -- is not used. *)
 Lemma sim_erase : forall colon rgb8 v t l pn n (mv : bool) lc c, SimInv colon rgb8 v t l pn ->
   cur_rel v (Some (lc, c)) -> 0 <= n -> 0 <= c -> c + n <= v_cols v ->
   exists toks, api_step t (AErasech n (if mv then MYes else MMaybe)) = Some (t, toks, None) /\
@@ -334,19 +371,34 @@ Lemma sim_erase : forall colon rgb8 v t l pn n (mv : bool) lc c, SimInv colon rg
     cur_rel (vt_run toks v) (if mv then Some (lc, c + n) else None) /\
     v_lines (vt_run toks v) = v_lines v /\ v_cols (vt_run toks v) = v_cols v /\
     forall y x, v_grid (vt_run toks v) y x =
-                if (y =? lc) && (c <=? x) && (x <? c + n) then blank v else v_grid v y x.
+                if (y =? lc) && (c <=? x) && (x <? c + n)
+                then (if a_reverse (v_sgr v) then mkCell 32 (v_sgr v) else blank v) else v_grid v y x.
 Proof.
   intros colon rgb8 v t l pn n mv lc c Hsim Hcur Hn Hc0 Hfit.
-  destruct (Hsim) as (Hok & Hc1 & Hc2 & Hpi & Hrv & Hsgr).
+  destruct (Hsim) as (Hok & Hc1 & Hc2 & Hpi & Hsgr).
+  pose proof (PenInv_rv _ _ _ _ _ Hpi) as Hrv.
   destruct (vt_ok_parts v Hok) as (Hm & Hawm & HL & HC & Hr0 & Hcc0).
-  exists (xt_erasech false n (if mv then MYes else MMaybe)).
+  exists (xt_erasech (a_reverse (v_sgr v)) n (if mv then MYes else MMaybe)).
   split; [cbn [api_step]; rewrite Hrv; reflexivity|].
   unfold xt_erasech. destruct (n <? 1) eqn:En.
   - (* count 0: nothing *)
     assert (n = 0) by lia. subst n. rewrite vt_run_nil, Z.add_0_r.
     split; [exact Hsim|]. split; [destruct mv; [exact Hcur|exact I]|]. split; [reflexivity|]. split; [reflexivity|].
     intros y x. destruct ((y =? lc) && (c <=? x) && (x <? c)) eqn:E; [lia|reflexivity].
-  - cbn [negb]. cbn [cur_rel] in Hcur. destruct Hcur as (Hrow & [(Hlt & Hcol & Hpend) | (Hge & _)]); [|lia].
+  - destruct (a_reverse (v_sgr v)) eqn:Erv; cbn [negb].
+    + (* reverse video: spaces *)
+      rewrite spaces_chunks_eq by lia.
+      replace (match (if mv then MYes else MMaybe) with MNo => xt_move_rel 0 (- n) | _ => [] end) with (@nil token)
+        by (destruct mv; reflexivity).
+      rewrite app_nil_r.
+      destruct (print_vt colon rgb8 v t l pn (repeat 32 (Z.to_nat n)) lc c Hsim Hcur
+                  (forallb_printable_spaces _) Hc0) as (S1 & S2 & S3 & S4 & S5);
+        try (rewrite repeat_length; lia).
+      rewrite repeat_length, Z2Nat.id in * by lia.
+      split; [exact S1|]. split; [destruct mv; [exact S2|exact I]|]. split; [exact S3|]. split; [exact S4|].
+      intros y x. rewrite S5. destruct ((y =? lc) && (c <=? x) && (x <? c + n)) eqn:Ein; [|reflexivity].
+      rewrite (nth_repeat_lt _ 32) by lia. reflexivity.
+    + cbn [cur_rel] in Hcur. destruct Hcur as (Hrow & [(Hlt & Hcol & Hpend) | (Hge & _)]); [|lia].
     rewrite vt_run_app, run_ech_n by lia.
     set (v1 := vt_ech v n).
     assert (Hg1 : forall y x, v_grid v1 y x = if (y =? lc) && (c <=? x) && (x <? c + n) then blank v else v_grid v y x).
@@ -356,10 +408,10 @@ Proof.
     { intros v2 E1 E2 E3 E4 E5 R2 C2. unfold SimInv. split.
       - apply vt_ok_intro; rewrite ?E1, ?E2, ?E3, ?E4; assumption.
       - split; [exact Hc1|]. split; [exact Hc2|]. split; [apply (PenInv_sgr _ _ _ _ _ v); [exact E5|exact Hpi]|].
-        split; [exact Hrv|rewrite E5; exact Hsgr]. }
+        rewrite E5; exact Hsgr. }
     clear Hpi Hsgr Hsim.
     destruct mv.
-    + (* the cursor moves to the end of the erased range: CUF, which stops on the last column *)
+    * (* the cursor moves to the end of the erased range: CUF, which stops on the last column *)
       assert (Hmv : vt_run (xt_move_rel 0 n) v1 = set_cur v1 (mkCursor lc (Z.min (v_cols v - 1) (c + n)) false)).
       { rewrite move_rel_split. unfold move_v. cbn [Z.ltb Z.eqb Z.compare app]. unfold move_h.
         assert (Hcuf : forall k, k = n -> vt_cuf v1 k = set_cur v1 (mkCursor lc (Z.min (v_cols v - 1) (c + n)) false)).
@@ -375,20 +427,29 @@ Proof.
       { cbn [cur_rel]. unfold v1, vt_ech. vt_unfold. split; [reflexivity|].
         destruct (Z.eq_dec (c + n) (v_cols v)) as [E|E]; [right; lia|left; repeat split; lia]. }
       split; [reflexivity|]. split; [reflexivity|]. intros y x. exact (Hg1 y x).
-    + rewrite vt_run_nil.
+    * rewrite vt_run_nil.
       split; [apply Hsim1; unfold v1, vt_ech; vt_unfold; try reflexivity; assumption|].
       split; [exact I|]. split; [reflexivity|]. split; [reflexivity|]. exact Hg1.
 Qed.
 
-(* ---- composing the cell relations of consecutive operations *)
-Lemma cells_rel_nil : forall colon v v', (forall y x, v_grid v' y x = v_grid v y x) -> cells_rel colon [] v v'.
-Proof. intros colon v v' H y x _ _. cbn. apply H. Qed.
-
-Lemma cells_rel_app : forall colon wop w2 v v1 v2,
-  v_lines v1 = v_lines v -> v_cols v1 = v_cols v ->
-  cells_rel colon wop v v1 -> cells_rel colon w2 v1 v2 -> cells_rel colon (wop ++ w2) v v2.
+(* the recorded finding C09-erasech-rv-right-edge (trigger class [api_excl] / [erase_trigger]: reverse video,
+   moveend = NO, ending at the right edge) is excluded EXPLICITLY: no operation of a flush is in it, whatever the
+   pen, because renderbuffer.c asks for moveend = YES or MAYBE only *)
+Lemma flush_op_not_rv_edge : forall t v o, api_excl t v (api_of_termop o) = false.
 Proof.
-  intros colon wop w2 v v1 v2 E1 E2 H1 H2 y x Hy Hx.
+  intros t v o. unfold api_excl. destruct o as [lg cg|p|u|n mv]; cbn [api_of_termop req_of_api rv_edge_excl]; try reflexivity.
+  unfold erase_trigger. destruct mv; rewrite !andb_false_r; reflexivity.
+Qed.
+
+(* ---- composing the cell relations of consecutive operations *)
+Lemma cells_rel_nil : forall colon rgb8 v v', (forall y x, v_grid v' y x = v_grid v y x) -> cells_rel colon rgb8 [] v v'.
+Proof. intros colon rgb8 v v' H y x _ _. cbn. apply H. Qed.
+
+Lemma cells_rel_app : forall colon rgb8 wop w2 v v1 v2,
+  v_lines v1 = v_lines v -> v_cols v1 = v_cols v ->
+  cells_rel colon rgb8 wop v v1 -> cells_rel colon rgb8 w2 v1 v2 -> cells_rel colon rgb8 (wop ++ w2) v v2.
+Proof.
+  intros colon rgb8 wop w2 v v1 v2 E1 E2 H1 H2 y x Hy Hx.
   specialize (H1 y x Hy Hx). specialize (H2 y x ltac:(rewrite E1; exact Hy) ltac:(rewrite E2; exact Hx)).
   rewrite written_app, TS.look_app.
   destruct (written w2 (y, x)) eqn:W2.
@@ -414,7 +475,7 @@ Theorem paint_on_vt : forall ops colon rgb8 v t l pn cur w cur' pen',
     api_run t (map api_of_termop ops) = Some (t', toks) /\
     SimInv colon rgb8 (vt_run toks v) t' l' pen' /\ cur_rel (vt_run toks v) cur' /\
     v_lines (vt_run toks v) = v_lines v /\ v_cols (vt_run toks v) = v_cols v /\
-    cells_rel colon w v (vt_run toks v).
+    cells_rel colon rgb8 w v (vt_run toks v).
 Proof.
   induction ops as [|o ops IH]; intros colon rgb8 v t l pn cur w cur' pen' Hsim Hcur Hok P; cbn [TS.paint] in P.
   - inversion P; subst. exists t, [], l. cbn [map api_run]. rewrite vt_run_nil.
@@ -431,7 +492,7 @@ Proof.
       rewrite Hrun. exists t', (toks ++ toks2), l'. rewrite vt_run_app.
       split; [reflexivity|]. split; [exact Hsim2|]. split; [exact Hcur2|].
       split; [congruence|]. split; [congruence|].
-      apply (cells_rel_app colon [] w v (vt_run toks v) _ E1 E2); [apply cells_rel_nil; exact Hg|exact Hc2].
+      apply (cells_rel_app colon rgb8 [] w v (vt_run toks v) _ E1 E2); [apply cells_rel_nil; exact Hg|exact Hc2].
     + (* setpen *)
       cbn [termop_okb] in Ho.
       destruct (sim_setpen colon rgb8 v t l pn p Hsim Ho) as (t1 & toks & l1 & Hstep & Hsim1 & Ecur & E1 & E2 & Hg).
@@ -443,7 +504,7 @@ Proof.
       rewrite Hrun. exists t', (toks ++ toks2), l'. rewrite vt_run_app.
       split; [reflexivity|]. split; [exact Hsim2|]. split; [exact Hcur2|].
       split; [congruence|]. split; [congruence|].
-      apply (cells_rel_app colon [] w v (vt_run toks v) _ E1 E2); [apply cells_rel_nil; exact Hg|exact Hc2].
+      apply (cells_rel_app colon rgb8 [] w v (vt_run toks v) _ E1 E2); [apply cells_rel_nil; exact Hg|exact Hc2].
     + (* print *)
       cbn [termop_okb] in Ho.
       destruct cur as [[lc c]|]; [|discriminate P].
@@ -465,13 +526,13 @@ Proof.
       rewrite Hrun. exists t', (toks ++ toks2), l'. rewrite vt_run_app.
       split; [reflexivity|]. split; [exact Hsim2|]. split; [exact Hcur2|].
       split; [congruence|]. split; [congruence|].
-      apply (cells_rel_app colon _ w2 v (vt_run toks v) _ E1 E2); [|exact Hc2].
+      apply (cells_rel_app colon rgb8 _ w2 v (vt_run toks v) _ E1 E2); [|exact Hc2].
       intros y x Hy Hx. rewrite (SH.lay_narrow u Nu). rewrite written_rw, !map_length, Hg.
       destruct ((y =? lc) && (c <=? x) && (x <? c + Z.of_nat (length u))) eqn:Ein; [|reflexivity].
       rewrite TS.look_rw. unfold Tickit.RBAbsLemmas.zlen. rewrite !map_length, Ein.
       rewrite nth_map_map_narrow by lia.
       exists (nth (Z.to_nat (x - c)) u 0). cbn [FD.t_text FD.t_pen c_glyph c_attrs].
-      split; [reflexivity|]. split; [reflexivity|]. left. destruct Hsim as (_ & _ & _ & _ & _ & Hsgr). exact Hsgr.
+      split; [reflexivity|]. split; [reflexivity|]. left. destruct Hsim as (_ & _ & _ & _ & Hsgr). exact Hsgr.
     + (* erase *)
       destruct cur as [[lc c]|]; [|discriminate P].
       destruct ((0 <=? n) && (c + n <=? v_cols v)) eqn:Ec; [|discriminate P].
@@ -488,14 +549,18 @@ Proof.
       rewrite Hrun. exists t', (toks ++ toks2), l'. rewrite vt_run_app.
       split; [reflexivity|]. split; [exact Hsim2|]. split; [exact Hcur2|].
       split; [congruence|]. split; [congruence|].
-      apply (cells_rel_app colon _ w2 v (vt_run toks v) _ E1 E2); [|exact Hc2].
+      apply (cells_rel_app colon rgb8 _ w2 v (vt_run toks v) _ E1 E2); [|exact Hc2].
       intros y x Hy Hx. rewrite written_rw, repeat_length, Hg. rewrite Z2Nat.id by lia.
       destruct ((y =? lc) && (c <=? x) && (x <? c + n)) eqn:Ein; [|reflexivity].
       rewrite TS.look_rw. unfold Tickit.RBAbsLemmas.zlen. rewrite repeat_length, Z2Nat.id by lia. rewrite Ein.
       rewrite (nth_repeat_lt _ (FD.mkT [32] pn)) by lia.
-      exists 32. cbn [FD.t_text FD.t_pen]. split; [reflexivity|]. split; [reflexivity|]. right. split; [reflexivity|].
-      destruct Hsim as (_ & _ & _ & _ & _ & Hsgr). unfold blank, blank_cell, erased. cbn [c_attrs].
-      rewrite Hsgr. unfold visbg, rend. cbn [a_reverse a_bg]. reflexivity.
+      destruct Hsim as (_ & _ & _ & _ & Hsgr).
+      exists 32. cbn [FD.t_text FD.t_pen]. split; [reflexivity|].
+      destruct (a_reverse (v_sgr v)) eqn:Erv.
+      * split; [reflexivity|]. left. exact Hsgr.
+      * split; [reflexivity|]. right. split; [reflexivity|].
+        unfold blank, blank_cell, erased. cbn [c_attrs]. rewrite <- Hsgr.
+        unfold visbg. cbn [a_reverse a_bg]. rewrite Erv. reflexivity.
 Qed.
 
 (* ---- the composition with C04, for every buffer a drawing program reaches *)
@@ -519,7 +584,7 @@ Theorem flush_on_vt : forall L C prog s r colon rgb8 v0 t0 l0 pn0 T0,
        SimInv colon rgb8 (vt_run toks v0) t1 l1 pn1 /\
        forall y x, 0 <= y < v_lines v0 -> 0 <= x < v_cols v0 ->
          if written w (y, x)
-         then wrel colon (v_grid (vt_run toks v0) y x) (TS.tcellat T1 y x)
+         then wrel colon rgb8 (v_grid (vt_run toks v0) y x) (TS.tcellat T1 y x)
          else v_grid (vt_run toks v0) y x = v_grid v0 y x /\ TS.tcellat T1 y x = TS.tcellat T0 y x).
 Proof.
   intros L C prog s r colon rgb8 v0 t0 l0 pn0 T0 HL HC Ho E Hsim (HT & TL & TC & Tp) HLv HCv.
@@ -545,7 +610,18 @@ Proof.
   unfold SimInv. cbn [t_drv t_pen]. split; [exact Hok|]. split; [reflexivity|]. split; [reflexivity|].
   split.
   - unfold PenInv. split; [intros a x E; discriminate E|]. split; [intros a; reflexivity|exact Hm].
-  - split; [reflexivity|].
-    destruct Hm as (Hm1 & Hf). apply attrs_ext; [|rewrite Hf; reflexivity].
-    intros a. rewrite Hm1. cbn. destruct a; try reflexivity. cbn. unfold rund. destruct (cap_colon (x_caps d)); reflexivity.
+  - destruct Hm as (Hm1 & Hf). apply attrs_ext; [|rewrite Hf; reflexivity].
+    intros a. rewrite Hm1. unfold rend. rewrite enc_attr by (apply (rval_in_range RD.pen_empty a); reflexivity).
+    cbn [empty_pen]. destruct a; cbn; try reflexivity. destruct (cap_colon (x_caps d)); reflexivity.
 Qed.
+
+(* non-vacuity of the pen class: a reverse-video pen with an RGB foreground and a curly underline is covered;
+   its rendition depends on the two capabilities as C10 says *)
+Definition rv_rgb_pen : RD.pen :=
+  RD.mkPen (Some (Tickit.PenSpec.VCol 3 (Some (Tickit.PenDefs.mkRgb 10 20 30)))) None None
+           (Some (Tickit.PenSpec.VInt 3)) None (Some (Tickit.PenSpec.VBool true)) None None None None.
+Lemma rv_pen_example :
+  rbpen_okb rv_rgb_pen = true /\ a_reverse (rend true true rv_rgb_pen) = true /\
+  a_fg (rend true true rv_rgb_pen) = CRgb 10 20 30 /\ a_fg (rend true false rv_rgb_pen) = CIdx 3 /\
+  a_under (rend true true rv_rgb_pen) = 3 /\ a_under (rend false true rv_rgb_pen) = 1.
+Proof. vm_compute. repeat split; reflexivity. Qed.
